@@ -84,3 +84,65 @@ F8_CASE = {"classes": [], "registry": [],
 FAMILIES[1].corpus = [F8_CASE]
 FAMILIES[0].corpus = [F6_CASE]
 FAMILIES[0].known = known
+
+
+# ---- an open action logging while another thread performs the first add_destinations() (line-granular schedules) ----
+def gen_handover(rng, tier):
+    out = []
+    quick = tier == "quick"
+    for i in range(0, 260, 13 if quick else 4):
+        for j in range(0, 66, 6 if quick else 2):
+            out.append({"segs": [[0, i], [1, j], [0, 2000], [1, 2000]]})
+    for i in range(0, 260, 10 if quick else 3):
+        out.append({"segs": [[0, i], [1, 2000], [0, 2000]]})
+    for _ in range(40 if quick else 800):
+        segs, t = [], rng.randrange(2)
+        for _ in range(rng.randrange(2, 10)):
+            segs.append([t, rng.randrange(1, 80 if t == 0 else 25)])
+            t = 1 - t
+        out.append({"segs": segs})
+    return out
+
+
+def impl_handover(case):
+    from eliot import _output, log_message, start_action
+    from lib.linesched import LineScheduler, Deadlock, segments_to_schedule, instrument
+    d = _output.Destinations()
+    _output.Logger._destinations = d
+    got = []
+    sched = LineScheduler(files=("eliot/_output.py",))
+    instrument(d, sched)
+
+    def a():
+        with start_action(action_type="act"):
+            for n in range(1, 6):
+                log_message("m", n=n)
+
+    def b():
+        d.add(lambda m: got.append(dict(m)))
+    try:
+        sched.run([a, b], segments_to_schedule([tuple(x) for x in case["segs"]]), fallback="finish_first")
+    except Deadlock as e:
+        return {"deadlock": str(e)[:300]}
+    ts = list(sched.trace)
+    overlap = 0 in ts and 1 in ts and not (max(i for i, t in enumerate(ts) if t == 0) < ts.index(1)
+                                           or max(i for i, t in enumerate(ts) if t == 1) < ts.index(0))
+    return {"results": sched.results, "raw": {"1": [progs.raw_msg(m) for m in got]}, "overlap": overlap}
+
+
+def oracle_handover(case, obs):
+    if "deadlock" in obs:
+        return "the two calls dead-locked: %s" % obs["deadlock"]
+    for r in obs["results"]:
+        if not r or r[0] != "ok":
+            return "a call raised: %r" % (r,)
+    msgs = obs["raw"]["1"]
+    ns = [m.get("n") for m in msgs if m.get("message_type") == "m"]
+    if sorted(ns) != [1, 2, 3, 4, 5] or len(msgs) != 7:
+        return "the action's 7 messages must each arrive once; got %r" % [[m.get("action_status"), m.get("n")] for m in msgs]
+    return oracles.placement(msgs)
+
+
+FAMILIES.append(Family("handover", gen_handover, impl_handover, None, None, oracle_handover,
+                       lambda case, obs: json.dumps(case) if isinstance(obs, dict) and obs.get("overlap") else None,
+                       shard=40, case_timeout=30))
